@@ -38,9 +38,16 @@ def main():
         res["unit"] = out.strip()
         rc, out = sh(f"timeout 120 /venv/bin/python {d}/demo.py {REPO}")
         res["demo_patched"] = (rc, out.strip().splitlines()[-1:] if out.strip() else [])
-        rc, out = sh(f"cd {VERIF} && timeout 1200 ./check {pid} --tier quick")
+        rc, out = sh(f"cd {VERIF} && VERIF_NO_ESCALATE=1 timeout 1200 ./check {pid} --tier quick")
         res["check_rc"] = rc
-        res["check_out"] = [l for l in out.splitlines() if l.startswith(("VIOLATION", "OK", "KNOWN", "  "))][:6]
+        lines = out.splitlines()
+        keep = []
+        for i, l in enumerate(lines):
+            if l.startswith(("VIOLATION", "OK ", "KNOWN")):
+                keep.append(l)
+                if l.startswith("VIOLATION") and i + 1 < len(lines):
+                    keep.append(lines[i + 1])
+        res["check_out"] = keep[:8]
     finally:
         sh(f"git -C {REPO} checkout -- .")
     res["caught"] = res.get("check_rc") == 1
